@@ -210,7 +210,7 @@ def printable_classes(ctx: Ctx) -> List[ClassInfo]:
         for c in calls(fn.node):
             n = callee_name(c)
             if n:
-                ctor_sites.setdefault(n, set()).add(fn.name)
+                ctor_sites.setdefault(n, set()).add(ctx.callgraph.owner(fn).name)
     keep = []
     for c in out:
         sites = ctor_sites.get(c.name, set())
